@@ -13,6 +13,14 @@ import (
 	"strconv"
 )
 
+// fileObj is what an *os.File opened through the modelled os.OpenFile points to.
+type fileObj struct {
+	name       string
+	appendMode bool
+	wrote      bool
+	closed     bool
+}
+
 // JSONBytes is the result of json.Marshal*: only "what value was encoded" is defined.
 type JSONBytes struct {
 	typ types.Type
@@ -93,6 +101,92 @@ func init() {
 		// callers in the checked code only look at the error
 		return Tuple{Iface{}, Iface{}}
 	}
+	// os.OpenFile / (*os.File).Write / Sync / Close over the abstract store. Contents are abstract documents
+	// without a length, so the one thing a handle adds over os.WriteFile - writing over existing content
+	// without truncating it - is modelled by a choice: the new document is either at least as long as what was
+	// there (the file then holds the new document) or shorter (the tail of the old content survives and the
+	// file is no longer a document of any type).
+	externals["os.OpenFile"] = func(p *Path, fr *frame, a []Value) Value {
+		if ev, failed := ioErr(p, "OpenFile"); failed {
+			return Tuple{nilPtr, ev}
+		}
+		name := fileKey(a[0])
+		fl, ok := a[1].(*Term)
+		if !ok || !fl.isConst {
+			panic(engineError("os.OpenFile with symbolic flags"))
+		}
+		flags := int(fl.u)
+		const oCreate, oTrunc, oAppend, oExcl = 0x40, 0x200, 0x400, 0x80
+		_, exists := p.files[name]
+		if !exists && flags&oCreate == 0 {
+			return Tuple{nilPtr, p.errorValue(p.e.strOf("open: no such file or directory"))}
+		}
+		if exists && flags&oCreate != 0 && flags&oExcl != 0 {
+			return Tuple{nilPtr, p.errorValue(p.e.strOf("open: file exists"))}
+		}
+		if !exists || flags&oTrunc != 0 {
+			p.files[name] = &JSONBytes{} // empty: not a document
+			p.ghost["file.empty:"+name] = true
+		}
+		cell := new(Value)
+		*cell = &fileObj{name: name, appendMode: flags&oAppend != 0}
+		return Tuple{Ptr(cell), Iface{}}
+	}
+	fileOf := func(v Value) *fileObj {
+		ptr, _ := v.(Ptr)
+		if ptr == nil {
+			panic(targetPanic{msg: "runtime error: invalid memory address or nil pointer dereference (nil *os.File)"})
+		}
+		fo, ok := (*ptr).(*fileObj)
+		if !ok {
+			panic(engineError("*os.File of unknown origin (not opened through the modelled os.OpenFile)"))
+		}
+		return fo
+	}
+	fwrite := func(p *Path, fr *frame, a []Value) Value {
+		fo := fileOf(a[0])
+		if fo.closed {
+			return Tuple{p.e.ts.BV(64, 0), p.errorValue(p.e.strOf("write: file already closed"))}
+		}
+		if ev, failed := ioErr(p, "Write"); failed {
+			return Tuple{p.e.ts.BV(64, 0), ev}
+		}
+		_, empty := p.ghost["file.empty:"+fo.name]
+		switch {
+		case empty && !fo.wrote:
+			p.files[fo.name] = a[1]
+		case fo.wrote || fo.appendMode:
+			p.files[fo.name] = &JSONBytes{} // two documents in a row are not a document
+		default:
+			// first write at offset 0 over existing content that was not truncated
+			if p.Branch(p.newInput("write.shorter.than.old.content", BoolSort)) {
+				p.files[fo.name] = &JSONBytes{}
+			} else {
+				p.files[fo.name] = a[1]
+			}
+		}
+		delete(p.ghost, "file.empty:"+fo.name)
+		fo.wrote = true
+		p.logs["writes:"+fo.name] = append(p.logs["writes:"+fo.name], a[1])
+		return Tuple{p.e.ts.BV(64, 1), Iface{}}
+	}
+	externals["(*os.File).Write"] = fwrite
+	externals["(*os.File).Sync"] = func(p *Path, fr *frame, a []Value) Value {
+		fileOf(a[0])
+		if ev, failed := ioErr(p, "Sync"); failed {
+			return ev
+		}
+		return Iface{}
+	}
+	externals["(*os.File).Close"] = func(p *Path, fr *frame, a []Value) Value {
+		fo := fileOf(a[0])
+		if fo.closed {
+			return p.errorValue(p.e.strOf("close: file already closed"))
+		}
+		fo.closed = true
+		return Iface{}
+	}
+	externals["(*os.File).Name"] = func(p *Path, fr *frame, a []Value) Value { return p.e.strOf(fileOf(a[0]).name) }
 	intrinsics["vfFileFaults"] = func(p *Path, fr *frame, a []Value) Value { p.ghost["fileFaults"] = true; return nil }
 	intrinsics["vfFileExists"] = func(p *Path, fr *frame, a []Value) Value {
 		_, ok := p.files[fileKey(a[0])]
